@@ -356,6 +356,8 @@ func (fc *FuncCtx) evalSpec(st *State, e *SExpr, sc *specCtx) Val {
 			l := fc.specFieldLoc(st, base, index, sc)
 			t := fc.readLoc(st, l)
 			_ = o
+			// heap invariant: fields hold nil or objects that exist (so they differ from later allocations)
+			fc.existing(st, t, l.Typ)
 			return Val{T: t, Typ: l.Typ}
 		case *types.Func:
 			b := base
